@@ -37,7 +37,7 @@ Types(c) == << [name |-> "colour", k |-> "enum", items |-> <<"red", "green", "bl
             \o (IF c.ak = 1 THEN <<>> ELSE
                 << [name |-> "colour2", k |-> "rename", items |-> <<>>, members |-> <<>>, base |-> T("colour")],
                    [name |-> "pick2", k |-> "rename", items |-> <<>>, members |-> <<>>, base |-> T("pick")],
-                   [name |-> "nest", k |-> "aggr", items |-> <<>>, members |-> <<>>, base |-> Agg("LIST", 1, 2, "LIST [1:2] OF INTEGER")] >>)
+                   [name |-> "nest", k |-> "aggr", items |-> <<>>, members |-> <<>>, base |-> AggOf("LIST", 1, 2, AggF("ARRAY", 0, 2, "INTEGER", TRUE, FALSE))] >>)
 (* type shapes (choice field ts): "base" = the types above only; "aggs" = one named type and one attribute per      *)
 (* aggregate form the language allows (UNIQUE on ARRAY and LIST, OPTIONAL on ARRAY, fixed and open bounds, an     *)
 (* aggregate of flagged aggregates); "chain" = a defined type, a rename of it and a rename of the rename, for a   *)
@@ -196,8 +196,9 @@ DictEntity(s, e) == [name |-> e.name, abstract |-> e.abstract, supers |-> e.supe
                      derived |-> [i \in 1..Len(e.derive) |-> [name |-> e.derive[i].name, ty |-> e.derive[i].ty]],
                      inverse |-> [i \in 1..Len(e.inverse) |-> [name |-> e.inverse[i].name, ent |-> e.inverse[i].ent,
                                                                attr |-> e.inverse[i].attr, setof |-> e.inverse[i].setof]]]
-(* known deviation of the generator (never part of the property): a defined type that gets no dictionary entry  *)
-(* (renamed enumerations had none either until fix 563944a5)                                                     *)
+(* (former deviations of the generator, repaired in /repo: a renamed enumeration and a named aggregate of         *)
+(* aggregates got no dictionary entry; Dev_NestedAggrNotRegistered is kept so that the deviation is named should *)
+(* it return, but it is no longer listed as a known finding)                                                      *)
 TypeByName(s, n) == s.types[CHOOSE i \in 1..Len(s.types) : s.types[i].name = n]
 RECURSIVE RootKind(_, _)
 RootKind(s, t) == IF t.k = "rename" THEN RootKind(s, TypeByName(s, t.base.base)) ELSE t.k
@@ -227,6 +228,13 @@ PyKeywords == {"False", "None", "True", "and", "as", "assert", "async", "await",
                "else", "except", "finally", "for", "from", "global", "if", "import", "in", "is", "lambda", "nonlocal", "not", "or",
                "pass", "raise", "return", "try", "while", "with", "yield", "property"}
 PyName(n) == IF n \in PyKeywords THEN n \o "_" ELSE n
+(* Dev_PyKeywordUnescaped (known finding): the generator knows only three of these words (class, pass, property) and    *)
+(* escapes them at some of the places where a name is written; a schema that uses another reserved word as an        *)
+(* identifier yields a module that Python cannot compile                                                             *)
+PyEscaped == {"class", "pass", "property"}
+NamesOf(s) == {s.ents[i].name : i \in 1..Len(s.ents)} \cup UNION {{s.ents[i].attrs[j].name : j \in 1..Len(s.ents[i].attrs)} : i \in 1..Len(s.ents)}
+              \cup {s.types[i].name : i \in 1..Len(s.types)} \cup UNION {{s.types[i].items[j] : j \in 1..Len(s.types[i].items)} : i \in 1..Len(s.types)}
+Dev_PyKeywordUnescaped(s) == NamesOf(s) \cap (PyKeywords \ PyEscaped) # {}
 PyModule(s) == [classes |-> [i \in 1..Len(s.ents) |->
                                [name |-> PyName(s.ents[i].name), bases |-> [j \in 1..Len(s.ents[i].supers) |-> PyName(s.ents[i].supers[j])],
                                 params |-> [j \in 1..Len(AttrOrder(s, s.ents[i].name)) |-> PyName(AttrOrder(s, s.ents[i].name)[j].name)]]],
